@@ -17,7 +17,7 @@ CASES = {'quick': 4000, 'thorough': 100000}
 PARALLEL = False          # to_wire needs the cookie texts of the implementation run, which is memoised in-process
 ALLOWED_AXIOMS = ()
 RULE = ('chains of 1-6 requests through a real SignedCookieSessionFactory, each presenting the cookie last set / a tampered '
-        'variant / none; 0-6 operations per request from the 22 public operations; clock advanced by 0,1,reissue+-1,'
+        'variant / none; 0-6 operations per request from the 23 public operations, optional arguments given / omitted / passed by keyword; clock advanced by 0,1,reissue+-1,'
         'timeout+-1; options varied.  non-trivial = the chain set at least one cookie AND a later request presented that '
         'cookie or an edit of it (so persistence or rejection was really exercised); distinct by full case')
 ASSUMPTIONS = [
@@ -290,8 +290,11 @@ def _snap(sess):
 
 def _do_op(sess, o):
     n = o['op']
+    # optional arguments that the case does not give are OMITTED in the call (the model takes the documented default:
+    # ISession.flash(msg, queue='', allow_duplicate=True), pop_flash/peek_flash(queue=''), dict.get/setdefault -> None);
+    # 'kw': True passes the optional ones by keyword (the ISession parameter names are part of the API)
     if n == 'get':
-        return sess.get(o['k'], o.get('v'))
+        return sess.get(o['k'], o['v']) if 'v' in o else sess.get(o['k'])
     if n == 'getitem':
         return sess[o['k']]
     if n == 'items':
@@ -311,7 +314,7 @@ def _do_op(sess, o):
     if n == 'update':
         return sess.update(json.loads(json.dumps(o['v'])))
     if n == 'setdefault':
-        return sess.setdefault(o['k'], json.loads(json.dumps(o.get('v'))))
+        return sess.setdefault(o['k'], json.loads(json.dumps(o['v']))) if 'v' in o else sess.setdefault(o['k'])
     if n == 'pop':
         return sess.pop(o['k'], o['v']) if 'v' in o else sess.pop(o['k'])
     if n == 'popitem':
@@ -323,11 +326,21 @@ def _do_op(sess, o):
         del sess[o['k']]
         return None
     if n == 'flash':
-        return sess.flash(json.loads(json.dumps(o['v'])), o.get('q', ''), o.get('dup', True))
-    if n == 'pop_flash':
-        return sess.pop_flash(o.get('q', ''))
-    if n == 'peek_flash':
-        return sess.peek_flash(o.get('q', ''))
+        msg = json.loads(json.dumps(o['v']))
+        if o.get('kw') or ('dup' in o and 'q' not in o):
+            kw = {}
+            if 'q' in o:
+                kw['queue'] = o['q']
+            if 'dup' in o:
+                kw['allow_duplicate'] = o['dup']
+            return sess.flash(msg, **kw)
+        args = ([o['q']] if 'q' in o else []) + ([o['dup']] if 'dup' in o else [])
+        return sess.flash(msg, *args)
+    if n in ('pop_flash', 'peek_flash'):
+        f = getattr(sess, n)
+        if 'q' not in o:
+            return f()
+        return f(queue=o['q']) if o.get('kw') else f(o['q'])
     if n == 'new_csrf_token':
         return sess.new_csrf_token()
     if n == 'get_csrf_token':
@@ -781,6 +794,13 @@ def kinds(case, obs):
             out.add('exc')
         for op, x in zip(r['ops'], rs):
             out.add('op-' + op['op'])
+            if op['op'] == 'flash':
+                out.add('flash-allow_duplicate-%s' % ('default' if 'dup' not in op else op['dup']))
+                out.add('flash-queue-%s' % ('default' if 'q' not in op else 'given'))
+            if op['op'] in ('flash', 'pop_flash', 'peek_flash') and op.get('kw'):
+                out.add('flash-api-by-keyword')
+            if op['op'] in ('get', 'setdefault') and 'v' not in op:
+                out.add('op-%s-default-omitted' % op['op'])
             if x[0] == 1:
                 out.add('op-raises-%s' % {1: 'KeyError', 2: 'AttributeError'}.get(x[1], '?'))
         if not s1[5] and rs:
